@@ -183,7 +183,7 @@ fn choose_holes(n: &N, rng: &mut Rng, ids: &Ids, allow_run: bool) -> Vec<Hole> {
 
 pub fn cut_unit(ctx: &Ctx, rng: &mut Rng, o: &mut Out) {
   let sources = corpus::load();
-  let per_src = if ctx.thorough { 400 } else { 40 };
+  let per_src = if ctx.thorough { 600 } else { 150 };
   let mut guard_pass = 0usize;
   let mut guard_total = 0usize;
   let mut oracle_cases = 0usize;
@@ -218,6 +218,8 @@ pub fn cut_unit(ctx: &Ctx, rng: &mut Rng, o: &mut Out) {
         .collect();
       // the model's own `cut` must produce the same pattern (ties `cut` to the converter)
       o.op("cut_shape", json!({"t": tid, "node": ids.of(n), "holes": holes_json}), real.clone());
+      // the theorem's hypotheses (NoMissing / HolesOK), evaluated by the model driver: measured
+      o.op("info:holes_ok", json!({"t": tid, "node": ids.of(n), "holes": holes_json}), Value::Null);
       for (sname, mk) in STRICT {
         let p = pat.clone().with_strictness(mk());
         let r = run_match(&p, n, &ids);
@@ -272,8 +274,8 @@ pub fn cut_unit(ctx: &Ctx, rng: &mut Rng, o: &mut Out) {
 /// C03: near misses — patterns cut from one node, tried on other nodes of the same file
 pub fn near_miss_unit(ctx: &Ctx, rng: &mut Rng, o: &mut Out) {
   let sources = corpus::load();
-  let variants = if ctx.thorough { 6 } else { 1 };
-  let pats_per_src = if ctx.thorough { 60 } else { 14 };
+  let variants = if ctx.thorough { 6 } else { 2 };
+  let pats_per_src = if ctx.thorough { 60 } else { 30 };
   let cands_per_pat = if ctx.thorough { 40 } else { 14 };
   let mut si = 0;
   for src0 in sources.iter() {
@@ -309,6 +311,8 @@ pub fn near_miss_unit(ctx: &Ctx, rng: &mut Rng, o: &mut Out) {
         }
         let Ok(pat) = Pattern::try_new(&text, src.lang) else { continue };
         let pd = treedump::dump_pattern(&pat.node);
+        // hypothesis of the soundness theorem (C03 `PatternWF`): no inner pattern node without children
+        o.op("pattern_wf", json!({"p": pd}), json!(pattern_wf(&pat.node)));
         // candidates: same kind first, then random others
         let mut cands: Vec<&N> = all.iter().filter(|c| c.kind_id() == pn.kind_id()).take(cands_per_pat / 2).collect();
         while cands.len() < cands_per_pat {
@@ -329,6 +333,14 @@ pub fn near_miss_unit(ctx: &Ctx, rng: &mut Rng, o: &mut Out) {
         }
       }
     }
+  }
+}
+
+pub fn pattern_wf(p: &ast_grep_core::matcher::PatternNode) -> bool {
+  use ast_grep_core::matcher::PatternNode as P;
+  match p {
+    P::Internal { children, .. } => !children.is_empty() && children.iter().all(pattern_wf),
+    _ => true,
   }
 }
 
